@@ -93,7 +93,7 @@ impl FileTransferPlugin {
 }
 #[verifier::external_body]
 pub fn vx_check_auto_save(glob: &Option<VxGlob>, path: &Option<String>, file_transfer: &mut FileTransfer, keep_data: bool)
-    ensures settled(*old(file_transfer), *final(file_transfer)), final(file_transfer).file_data == old(file_transfer).file_data,
+    ensures save_frame(*old(file_transfer), *final(file_transfer), keep_data),   // the contract PROVED for check_auto_save below (O:save.frame), restated without the file-system parameter
 { unimplemented!() }
 pub proof fn lemma_settled_view(a: FileTransfer, b: FileTransfer)
     requires settled(a, b),
@@ -263,4 +263,119 @@ pub open spec fn flst_post(o: FileTransferPlugin, f: FileTransferPlugin, e: DltC
 //@|        !(nr_packages > 0 && buffer_size > 0) ==> !announce_ok(a0),
 //@|    decreases vx_args.rem().len(),
 //@ end
+
+// ---------- check_auto_save / base_name_for_filetransfer: "automatic saving never overwrites an existing file and never writes
+// outside the configured directory" ----------
+// R12 models of std::path / std::fs (ASSUMED, from their documentation): a path is its text; `Path::file_name()` is the last normal
+// component (no separator, not `..`) if there is one; `dir.join(base)` for such a component lies directly in `dir`; `parent()` of
+// `dir.join(base)` is not below it; the file system is a ghost record of what exists and of every create-and-write.
+pub uninterp spec fn spec_is_base_name(s: Seq<char>) -> bool;
+pub uninterp spec fn spec_join(dir: Seq<char>, name: Seq<char>) -> Seq<char>;
+pub uninterp spec fn spec_below_or_self(x: Seq<char>, q: Seq<char>) -> bool;   // x is q or an ancestor directory of q
+pub trait VxPathText { spec fn t(&self) -> Seq<char>; }
+impl VxPathText for String { open spec fn t(&self) -> Seq<char> { self@ } }
+impl VxPathText for &String { open spec fn t(&self) -> Seq<char> { (**self)@ } }
+#[verifier::external_body]
+pub struct VxPath { _p: u8 }
+#[verifier::external_body]
+pub struct VxOsStr { _p: u8 }
+#[verifier::external_body]
+pub struct VxCow { _p: u8 }
+impl VxOsStr {
+    pub uninterp spec fn text(&self) -> Seq<char>;
+    #[verifier::external_body]
+    pub fn to_string_lossy(&self) -> (r: VxCow) ensures r.text() == self.text() { unimplemented!() }
+}
+impl VxCow {
+    pub uninterp spec fn text(&self) -> Seq<char>;
+    #[verifier::external_body]
+    pub fn into_owned(self) -> (r: String) ensures r@ == self.text() { unimplemented!() }
+}
+impl VxPath {
+    pub uninterp spec fn text(&self) -> Seq<char>;
+    #[verifier::external_body]
+    pub fn new(s: &String) -> (r: VxPath) ensures r.text() == s@ { unimplemented!() }
+    #[verifier::external_body]
+    pub fn new_dot() -> (r: VxPath) ensures r.text() == "./"@ { unimplemented!() }
+    #[verifier::external_body]
+    pub fn file_name(&self) -> (r: Option<VxOsStr>) ensures r is Some ==> spec_is_base_name(r->Some_0.text()) { unimplemented!() }
+    #[verifier::external_body]
+    pub fn join<T: VxPathText>(&self, name: T) -> (r: VxPath) ensures r.text() == spec_join(self.text(), name.t()) { unimplemented!() }
+    #[verifier::external_body]
+    pub fn parent(&self) -> (r: Option<VxPath>) ensures r is Some ==> !spec_below_or_self(self.text(), r->Some_0.text()) { unimplemented!() }
+    #[verifier::external_body]
+    pub fn to_str(&self) -> (r: Option<&str>) { unimplemented!() }
+}
+pub struct VxWrite { pub path: Seq<char>, pub data: Seq<u8>, pub existed: bool }
+#[verifier::external_body]
+pub struct VxFs { _p: u8 }
+impl VxFs {
+    pub uninterp spec fn present(&self) -> Set<Seq<char>>;       // what exists (files and directories)
+    pub uninterp spec fn writes(&self) -> Seq<VxWrite>;          // every create-and-write so far
+    #[verifier::external_body]
+    pub fn exists(&self, p: &VxPath) -> (r: bool) ensures r == self.present().contains(p.text()) { unimplemented!() }
+    // std::fs::create_dir_all(q): may create q and its ancestors, nothing else; writes no file
+    #[verifier::external_body]
+    pub fn create_dir_all(&mut self, q: &VxPath) -> (r: Result<(), VxIoErr>)
+        ensures final(self).writes() == old(self).writes(),
+            forall|x: Seq<char>| !spec_below_or_self(x, q.text()) ==> (#[trigger] final(self).present().contains(x) == old(self).present().contains(x)),
+    { unimplemented!() }
+    // `File::create(&path).and_then(|mut f| f.write_all(data))`: truncates/creates the file and writes the bytes
+    #[verifier::external_body]
+    pub fn create_and_write(&mut self, p: &VxPath, data: &Vec<u8>) -> (r: Result<(), VxIoErr>)
+        ensures
+            r is Ok ==> final(self).writes() == old(self).writes().push(VxWrite { path: p.text(), data: data@, existed: old(self).present().contains(p.text()) }),
+            r is Err ==> final(self).writes() == old(self).writes() || final(self).writes() == old(self).writes().push(VxWrite { path: p.text(), data: Seq::empty(), existed: old(self).present().contains(p.text()) }),
+    { unimplemented!() }
+}
+#[verifier::external_body]
+pub struct VxIoErr { _p: u8 }
+#[verifier::external_body]
+pub fn vx_path_text_owned(p: &VxPath) -> (r: Option<String>) { unimplemented!() }
+
+// the placeholder `format!("<invalid_filename serial {}>", serial)`: a text without a path separator (by reading the literal)
+#[verifier::external_body]
+pub fn vx_placeholder_name() -> (r: String) ensures spec_is_base_name(r@) { unimplemented!() }
+impl FileTransferPlugin {
+//@ extract src/plugins/file_transfer.rs FileTransferPlugin::base_name_for_filetransfer
+//@   sub R12 `std::path::Path::new(&file_transfer.file_name) .file_name() .map(|s| s.to_string_lossy())` => `(match VxPath::new(&file_transfer.file_name).file_name() { Some(s) => Some(s.to_string_lossy()), None => None })`
+//@   sub R6 `vx_opaque_string()` => `vx_placeholder_name()`
+//@   spec
+//@|    ensures spec_is_base_name(r@), // O:save.base_name (the name used for saving is a single path component: the last component of the announced name, or a placeholder)
+//@ end
+}
+// what auto-save may do to the file system: at most one create-and-write - of the complete transfer's bytes, to a path directly in the
+// configured directory (or "./"), which did not exist
+pub open spec fn save_post(t0: FileTransfer, fs0: &VxFs, fs1: &VxFs, dir: Option<String>) -> bool {
+    fs1.writes() == fs0.writes() || ({
+        let w = fs1.writes().last();
+        &&& fs1.writes().drop_last() =~= fs0.writes()
+        &&& t0.state == FileTransferState::Complete                                       // O:save.complete_only
+        &&& (w.data == t0.file_data@ || w.data.len() == 0)                                // O:save.bit_exact (the bytes written are the transfer's bytes; a failed write may leave an empty file)
+        &&& !w.existed                                                                    // O:save.no_overwrite
+        &&& exists|b: Seq<char>| #[trigger] spec_is_base_name(b) && w.path == spec_join(if dir is Some { dir->Some_0@ } else { "./"@ }, b)   // O:save.inside_dir
+    })
+}
+// everything of the transfer but the kept bytes (dropped after saving unless they are to be kept) and the saved-to note
+pub open spec fn save_frame(a: FileTransfer, b: FileTransfer, keep_data: bool) -> bool {
+    &&& settled(a, b)
+    &&& (b.file_data == a.file_data || (!keep_data && a.state == FileTransferState::Complete && b.file_data@.len() == 0))
+}
+impl FileTransferPlugin {
+//@ extract src/plugins/file_transfer.rs FileTransferPlugin::check_auto_save
+//@   sub R12 `glob: &Option<glob::Pattern>,` => `vx_fs: &mut VxFs, glob: &Option<VxGlob>,`
+//@   sub R12 `std::path::Path::new(p)` => `VxPath::new(p)`
+//@   sub R12 `std::path::Path::new("./")` => `VxPath::new_dot()`
+//@   sub R12 `path.exists()` => `vx_fs.exists(&path)` ?
+//@   sub R12 `par_dir.exists()` => `vx_fs.exists(&par_dir)` ?
+//@   sub R12 `std::fs::create_dir_all(par_dir)` => `vx_fs.create_dir_all(&par_dir)` ?
+//@   sub R12 `File::create(&path) .and_then(|mut f| f.write_all(&file_transfer.file_data))` => `vx_fs.create_and_write(&path, &file_transfer.file_data)`
+//@   sub R12 `path.to_str().map(|p| p.to_owned())` => `vx_path_text_owned(&path)`
+//@   sub R11 `file_transfer.file_data.capacity()` => `vx_capacity(&file_transfer.file_data)`
+//@   spec
+//@|    ensures
+//@|        save_frame(*old(file_transfer), *final(file_transfer), keep_data), // O:save.frame
+//@|        save_post(*old(file_transfer), old(vx_fs), final(vx_fs), *path), // O:save.fs (at most one write: of a complete transfer's bytes, to a path directly in the configured directory that did not exist)
+//@ end
+}
 // ---- end of units/ftplugin/part.rs ----
